@@ -173,6 +173,12 @@ class AddStream(HTMLHandlerBase):
         if 'prefix' in params:
             data['directory'] = params['prefix']
         result = {}
+        if not is_valid_directory_name(data['directory']):
+            msg = 'Invalid directory name'
+            if is_ajax():
+                return jsonify({'error': msg}, 400)
+            flask.flash(msg, 'error')
+            return self.get(error=msg)
         st = models.Stream.get(directory=data['directory'])
         if st and periods_using_stream(st):
             msg = f'Stream {st.directory} already exists and is used by {", ".join(periods_using_stream(st))}'
@@ -194,6 +200,16 @@ class AddStream(HTMLHandlerBase):
         csrf_key = self.generate_csrf_cookie()
         result["csrf_token"] = self.generate_csrf_token('streams', csrf_key)
         return jsonify(result)
+
+
+def is_valid_directory_name(name: str | None) -> bool:
+    """
+    The directory of a stream is one directory inside the blob folder and one
+    element of the path of its URLs
+    """
+    if not isinstance(name, str) or name in {'', '.', '..'}:
+        return False
+    return '/' not in name and '\\' not in name and '\0' not in name
 
 
 class EditStreamTemplateContext(TemplateContext):
@@ -360,7 +376,8 @@ class EditStream(HTMLHandlerBase):
                 upload=None)
             return flask.render_template('media/stream.html', **context)
         current_stream.title = params['title']
-        if models.MediaFile.count(stream=current_stream) == 0:
+        if (models.MediaFile.count(stream=current_stream) == 0 and
+                is_valid_directory_name(params['directory'])):
             current_stream.directory = params['directory']
         current_stream.marlin_la_url = str_or_none(params['marlin_la_url'])
         current_stream.playready_la_url = str_or_none(params['playready_la_url'])
